@@ -74,9 +74,11 @@ def mayTouchLock (w : World) : Call → Acct → LockType → Prop
   | .propose a _ _ _ _, x, σ => x = a ∧ σ = .ordinary
   | .vote a _ _, x, σ => x = a ∧ σ = .ordinary
   | .thaw a _, x, σ => x = a ∧ σ = .ordinary
-  | .timer _, x, σ => σ = .ordinary ∧ ∃ pid amt, ((pid, x), amt) ∈ w.locks
-  | .checkVote c _, x, σ => c = .timer ∧ σ = .ordinary ∧ ∃ pid amt, ((pid, x), amt) ∈ w.locks
-  | .trigger c _, x, σ => c = .timer ∧ σ = .ordinary ∧ ∃ pid amt, ((pid, x), amt) ∈ w.locks
+  | .timer _, x, σ => σ = .ordinary ∧ lockScanCovers x = true ∧ ∃ pid amt, ((pid, x), amt) ∈ w.locks
+  | .checkVote c _, x, σ =>
+    c = .timer ∧ σ = .ordinary ∧ lockScanCovers x = true ∧ ∃ pid amt, ((pid, x), amt) ∈ w.locks
+  | .trigger c _, x, σ =>
+    c = .timer ∧ σ = .ordinary ∧ lockScanCovers x = true ∧ ∃ pid amt, ((pid, x), amt) ∈ w.locks
 
 /-- In EVERY state, for every call: if the locked amount of `(a, τ)` differs afterwards, the call was a
 lock/unlock operation on `a` for `τ` (directly, or issued by the proposal contract on behalf of `a`). -/
@@ -233,6 +235,35 @@ theorem timer_only_releases (w : World) (h : Int) (x : Acct) :
   apply Classical.byContradiction
   intro hne
   have := (r.only x .tdpos hne).1
+  contradiction
+
+/-- Histories: if no call of a history is one that may touch `locked a τ`, the locked amount at the end is the one
+at the start. In particular no sequence of Init and Transfer calls (by, to and between anybody, any amounts) and of
+lock/unlock/proposal calls on OTHER accounts ever changes it. -/
+theorem locks_unchanged_without_lock_calls (a : Acct) (τ : LockType) (cs : List Call) :
+    ∀ (w : World), (∀ c ∈ cs, ∀ w', ¬ mayTouchLock w' c a τ) →
+      lockedOf (run w cs).gov a τ = lockedOf w.gov a τ := by
+  induction cs with
+  | nil => intro w _; rfl
+  | cons c r ih =>
+    intro w h
+    have h1 : lockedOf (step w c).gov a τ = lockedOf w.gov a τ := by
+      apply Classical.byContradiction
+      intro hne
+      exact h c List.mem_cons_self w (locks_only_by_lock_unlock w c a τ hne)
+    have h2 := ih (step w c) (fun c' hc' => h c' (List.mem_cons_of_mem _ hc'))
+    show lockedOf (run (step w c) r).gov a τ = _
+    rw [h2, h1]
+
+/-- What the model says about the release scan of `unlockGovernTokensForProposal` (observed on the real code,
+corpus/C19/lowercase-account-not-released.ops): the timer callbacks never release anything of an account whose
+name lies outside the scanned key range. -/
+theorem release_skips_unscanned_accounts (w : World) (h : Int) (a : Acct) (τ : LockType)
+    (hs : lockScanCovers a = false) : lockedOf (step w (.timer h)).gov a τ = lockedOf w.gov a τ := by
+  apply Classical.byContradiction
+  intro hne
+  have := (locks_only_by_lock_unlock w (.timer h) a τ hne).2.1
+  rw [hs] at this
   contradiction
 
 /-! ## locks bind -/
